@@ -238,4 +238,240 @@ theorem rel_exit {p : PSt} {s : St} (r : Rel p s) (t id : Nat) (err : Option Str
             · simp only [findP_cons, h1, h2, if_false] at hp1 hp2
               exact r.live_inj id1 id2 pe1 pe2 hp1 hp2 hl1 hl2 hne
 
+/-! ## `ctxPool.Get` -/
+
+theorem not_mem_eraseIdx_of_nodup {l : List Nat} {k a : Nat} (hn : l.Nodup) (hk : l[k]? = some a) :
+    a ∉ l.eraseIdx k := by
+  induction l generalizing k with
+  | nil => simp at hk
+  | cons b r ih =>
+    rw [List.nodup_cons] at hn
+    cases k with
+    | zero => simp at hk; subst hk; simpa using hn.1
+    | succ j =>
+      simp only [List.getElem?_cons_succ] at hk
+      simp only [List.eraseIdx_cons_succ, List.mem_cons, not_or]
+      refine ⟨?_, ih hn.2 hk⟩
+      intro e; subst e; exact hn.1 (List.mem_of_getElem? hk)
+
+/-- the object in hand between `Get` and the end of `api.Entry`: allocated, reset, in nobody's possession -/
+structure Hand (p : PSt) (s : St) (i : Nat) : Prop where
+  rel : Rel p s
+  lt : i < p.store.length
+  reset : isReset (p.store.getD i freshCtx)
+  nf : i ∉ p.free
+  nl : ∀ id pe, findP p.ents id = some pe → pe.exited = false → pe.ctx ≠ i
+
+theorem poolGet_spec {p : PSt} {s : St} (r : Rel p s) (pick : Nat) :
+    Hand (poolGet p pick).2 s (poolGet p pick).1 := by
+  unfold poolGet
+  cases hg : p.free[pick]? with
+  | some i =>
+    have hi : i ∈ p.free := List.mem_of_getElem? hg
+    simp only []
+    refine ⟨⟨r.inb, r.nodes, r.log, r.exited, r.live, ?_, r.free_nd.eraseIdx pick, ?_, r.live_inj⟩,
+      (r.free_ok i hi).1, (r.free_ok i hi).2, not_mem_eraseIdx_of_nodup r.free_nd hg, ?_⟩
+    · intro j hj; exact r.free_ok j (List.mem_of_mem_eraseIdx hj)
+    · intro id pe hp hl hm; exact r.live_nf id pe hp hl (List.mem_of_mem_eraseIdx hm)
+    · intro id pe hp hl e; exact r.live_nf id pe hp hl (e ▸ hi)
+  | none =>
+    simp only []
+    refine ⟨⟨r.inb, r.nodes, r.log, r.exited, ?_, ?_, r.free_nd, r.live_nf, r.live_inj⟩, by simp, ?_, ?_, ?_⟩
+    · intro id pe hp hl
+      obtain ⟨h1, h2⟩ := r.live id pe hp hl
+      refine ⟨by simp; omega, ?_⟩
+      rw [getD_append_left _ _ _ _ h1]; exact h2
+    · intro j hj
+      obtain ⟨h1, h2⟩ := r.free_ok j hj
+      refine ⟨by simp; omega, ?_⟩
+      rw [getD_append_left _ _ _ _ h1]; exact h2
+    · rw [getD_append_new]; exact isReset_fresh
+    · intro hm; have := (r.free_ok _ hm).1; omega
+    · intro id pe hp hl e; have := (r.live id pe hp hl).1; omega
+
+theorem chainEntry_exited (fix : Bool) (s : St) (c : Ctx) (t : Nat) : (chainEntry fix s c t).2.1.exited = c.exited := by
+  rw [chainEntry_eq]
+  cases outcome c.e.chain with
+  | pass => rfl
+  | block => rfl
+  | panic => cases fix <;> rfl
+
+theorem statPassed_keeps_ents (s : St) (c : Ctx) (t : Nat) : (statPassed s c t).ents = s.ents := by
+  unfold statPassed onStat; split_ifs <;> rfl
+theorem statBlocked_keeps_ents (s : St) (c : Ctx) (t : Nat) : (statBlocked s c t).ents = s.ents := by
+  unfold statBlocked onStat; split_ifs <;> rfl
+
+theorem chainEntry_keeps_ents (fix : Bool) (s : St) (c : Ctx) (t : Nat) : (chainEntry fix s c t).1.ents = s.ents := by
+  rw [chainEntry_eq]
+  have h1 : (if attached c.e.chain = true then ({ s with nodes := getOrCreate s.nodes c.e.res t } : St) else s).ents = s.ents := by
+    split_ifs <;> rfl
+  cases outcome c.e.chain with
+  | pass => simp only [statPassed_keeps_ents, h1]
+  | block => simp only [statBlocked_keeps_ents, h1]
+  | panic =>
+    cases fix with
+    | true => simp only [recoverPanic, if_true]; rw [statPassed_keeps_ents]; exact h1
+    | false => simp only [recoverPanic, Bool.false_eq_true, if_false]; exact h1
+
+/-- what `api.entry` builds from a reset object is what the pool-free model starts from -/
+theorem ctx0_eq (pc : Ctx) (h : isReset pc) (e : EntryOp) (t : Nat) :
+    ({ pc with e := { e with args := if e.args.isEmpty then pc.e.args else e.args }, start := t } : Ctx) =
+      { e := e, start := t, err := none, hasNode := false, blocked := false, exited := false } := by
+  obtain ⟨h1, h2, h3, h4, h5⟩ := h
+  have ha : (if e.args.isEmpty then pc.e.args else e.args) = e.args := by
+    rw [h4]; cases he : e.args <;> simp
+  rw [ha, h1, h2, h3, h5]
+
+theorem poolGet_ents (p : PSt) (pick : Nat) : (poolGet p pick).2.ents = p.ents := by
+  unfold poolGet; cases p.free[pick]? <;> rfl
+
+/-- `api.Entry` -/
+theorem rel_entry {p : PSt} {s : St} (r : Rel p s) (fix : Bool) (t : Nat) (e : EntryOp) (pick : Nat) :
+    Rel (apiEntry fix p t e pick) (Entry.apiEntry fix s t e) := by
+  unfold apiEntry Entry.apiEntry
+  have hex := r.exited e.id
+  cases hp : findP p.ents e.id with
+  | some pe =>
+    rw [hp] at hex
+    cases hs : findE s.ents e.id with
+    | none => rw [hs] at hex; simp at hex
+    | some c => exact r
+  | none =>
+    rw [hp] at hex
+    cases hs : findE s.ents e.id with
+    | some c => rw [hs] at hex; simp at hex
+    | none =>
+      simp only []
+      have H := poolGet_spec r pick
+      have hents := poolGet_ents p pick
+      generalize poolGet p pick = g at H hents ⊢
+      obtain ⟨i, p1⟩ := g
+      simp only at H hents ⊢
+      have hfresh : findP p1.ents e.id = none := by rw [hents]; exact hp
+      rw [ctx0_eq (p1.store.getD i freshCtx) H.reset e t, core_eq H.rel, chainEntry_ents]
+      set c0 : Ctx := { e := e, start := t, err := none, hasNode := false, blocked := false, exited := false } with hc0
+      have hRex : (chainEntry fix s c0 t).2.1.exited = false := chainEntry_exited fix s c0 t
+      have hRents : (chainEntry fix s c0 t).1.ents = s.ents := chainEntry_keeps_ents fix s c0 t
+      generalize chainEntry fix s c0 t = R at hRex hRents ⊢
+      obtain ⟨s2, c2, res⟩ := R
+      simp only at hRex hRents ⊢
+      have rr := H.rel
+      have hblockcase : ∀ (b : Bool),
+          Rel (if b then poolPut { (p1.withCore { s2 with ents := [] }) with
+                  store := (p1.withCore { s2 with ents := [] }).store.set i c2,
+                  ents := (e.id, { ctx := i, exited := true }) :: p1.ents } i
+               else { (p1.withCore { s2 with ents := [] }) with
+                  store := (p1.withCore { s2 with ents := [] }).store.set i c2,
+                  ents := (e.id, { ctx := i, exited := false }) :: p1.ents })
+              (if b then { s2 with ents := (e.id, { c2 with exited := true }) :: s2.ents }
+               else { s2 with ents := (e.id, c2) :: s2.ents }) := by
+        intro b
+        cases b with
+        | true =>
+          simp only [if_true]
+          unfold poolPut
+          simp only [PSt.withCore]
+          refine ⟨rfl, rfl, rfl, ?_, ?_, ?_, ?_, ?_, ?_⟩
+          · intro id'
+            by_cases hid : e.id = id'
+            · subst hid; simp
+            · simp only [findP_cons, Entry.findE_cons, hid, if_false, hRents]; exact rr.exited id'
+          · intro id' pe' hp' hl'
+            by_cases hid : e.id = id'
+            · subst hid; simp at hp'; subst hp'; simp at hl'
+            · simp only [findP_cons, hid, if_false] at hp'
+              have hne : i ≠ pe'.ctx := fun h => H.nl id' pe' hp' hl' h.symm
+              obtain ⟨hlen', hfe'⟩ := rr.live id' pe' hp' hl'
+              refine ⟨by simpa using hlen', ?_⟩
+              simp only [Entry.findE_cons, hid, if_false, hRents]
+              rw [getD_set_ne _ _ _ _ _ hne, getD_set_ne _ _ _ _ _ hne]; exact hfe'
+          · intro j hj
+            rcases List.mem_cons.mp hj with rfl | hj
+            · refine ⟨by simpa using H.lt, ?_⟩
+              rw [getD_set_eq _ _ _ _ (by simpa using H.lt)]
+              apply isReset_reset
+              rw [getD_set_eq _ _ _ _ H.lt]; exact hRex
+            · have hne : i ≠ j := fun h => H.nf (h ▸ hj)
+              obtain ⟨h1, h2⟩ := rr.free_ok j hj
+              refine ⟨by simpa using h1, ?_⟩
+              rw [getD_set_ne _ _ _ _ _ hne, getD_set_ne _ _ _ _ _ hne]; exact h2
+          · exact List.nodup_cons.mpr ⟨H.nf, rr.free_nd⟩
+          · intro id' pe' hp' hl'
+            by_cases hid : e.id = id'
+            · subst hid; simp at hp'; subst hp'; simp at hl'
+            · simp only [findP_cons, hid, if_false] at hp'
+              intro hm
+              rcases List.mem_cons.mp hm with h1 | h1
+              · exact H.nl id' pe' hp' hl' h1
+              · exact rr.live_nf id' pe' hp' hl' h1
+          · intro id1 id2 pe1 pe2 hp1 hp2 hl1 hl2 hne
+            by_cases h1 : e.id = id1
+            · subst h1; simp at hp1; subst hp1; simp at hl1
+            · by_cases h2 : e.id = id2
+              · subst h2; simp at hp2; subst hp2; simp at hl2
+              · simp only [findP_cons, h1, h2, if_false] at hp1 hp2
+                exact rr.live_inj id1 id2 pe1 pe2 hp1 hp2 hl1 hl2 hne
+        | false =>
+          simp only [Bool.false_eq_true, if_false, PSt.withCore]
+          refine ⟨rfl, rfl, rfl, ?_, ?_, ?_, rr.free_nd, ?_, ?_⟩
+          · intro id'
+            by_cases hid : e.id = id'
+            · subst hid; simp [hRex]
+            · simp only [findP_cons, Entry.findE_cons, hid, if_false, hRents]; exact rr.exited id'
+          · intro id' pe' hp' hl'
+            by_cases hid : e.id = id'
+            · subst hid; simp at hp'; subst hp'
+              refine ⟨by simpa using H.lt, ?_⟩
+              simp only [Entry.findE_cons, if_true]
+              rw [getD_set_eq _ _ _ _ H.lt]
+            · simp only [findP_cons, hid, if_false] at hp'
+              have hne : i ≠ pe'.ctx := fun h => H.nl id' pe' hp' hl' h.symm
+              obtain ⟨hlen', hfe'⟩ := rr.live id' pe' hp' hl'
+              refine ⟨by simpa using hlen', ?_⟩
+              simp only [Entry.findE_cons, hid, if_false, hRents]
+              rw [getD_set_ne _ _ _ _ _ hne]; exact hfe'
+          · intro j hj
+            have hne : i ≠ j := fun h => H.nf (h ▸ hj)
+            obtain ⟨h1, h2⟩ := rr.free_ok j hj
+            refine ⟨by simpa using h1, ?_⟩
+            rw [getD_set_ne _ _ _ _ _ hne]; exact h2
+          · intro id' pe' hp' hl'
+            by_cases hid : e.id = id'
+            · subst hid; simp at hp'; subst hp'; exact H.nf
+            · simp only [findP_cons, hid, if_false] at hp'; exact rr.live_nf id' pe' hp' hl'
+          · intro id1 id2 pe1 pe2 hp1 hp2 hl1 hl2 hne
+            by_cases h1 : e.id = id1
+            · subst h1; simp at hp1; subst hp1
+              have h2 : ¬ e.id = id2 := hne
+              simp only [findP_cons, h2, if_false] at hp2
+              exact fun h => H.nl id2 pe2 hp2 hl2 h.symm
+            · by_cases h2 : e.id = id2
+              · subst h2; simp at hp2; subst hp2
+                simp only [findP_cons, h1, if_false] at hp1
+                exact H.nl id1 pe1 hp1 hl1
+              · simp only [findP_cons, h1, h2, if_false] at hp1 hp2
+                exact rr.live_inj id1 id2 pe1 pe2 hp1 hp2 hl1 hl2 hne
+      cases res with
+      | none => simpa [PSt.withCore] using hblockcase false
+      | some o =>
+        cases o with
+        | block => simpa [PSt.withCore] using hblockcase true
+        | pass => simpa [PSt.withCore] using hblockcase false
+        | panic => simpa [PSt.withCore] using hblockcase false
+
+theorem rel_step {p : PSt} {s : St} (r : Rel p s) (fix : Bool) (x : TOp) (pick : Nat) :
+    Rel (step fix p x pick) (Entry.step fix s x) := by
+  obtain ⟨t, op⟩ := x
+  cases op with
+  | entry e => exact rel_entry r fix t e pick
+  | trace id err => exact rel_trace r id err
+  | exit id err => exact rel_exit r t id err
+
+/-- along every history, for every sequence of pool choices -/
+theorem rel_runR (fix : Bool) (t0 : Nat) (h : List (TOp × Nat)) :
+    Rel (runR fix t0 h) (Entry.runR fix t0 (h.map (·.1))) := by
+  induction h with
+  | nil => exact rel_init t0
+  | cons x r ih => exact rel_step ih fix x.1 x.2
+
 end Sentinel.EntryPool
